@@ -71,7 +71,7 @@ From Verif Require Import model.RouteSpec proofs.C01_text_to_pat.
 Theorem C01_rule_text_to_pat :
   forall (wordc : N -> bool),
     (forall c, In c [ch_slash; ch_gt; ch_rbrace; ch_dot; ch_colon; ch_lpar] -> wordc c = false) ->
-    forall (num : str -> fid) (l : list seg),
+    forall (num : str -> fid) (l : list C01_parser.seg),
       segs_ok wordc l -> abs_ok (map abs_of_seg l) ->
       exists p,
         parse_rule wordc (ch_slash :: print l) = inr p /\
